@@ -683,7 +683,7 @@ def _slice_origin(mir, copies, pl, depth=0):
 
 
 # ---- one base value per path ("the fraction that is tested is the fraction that is printed") ---------------------------------------
-def path_bases(p, is_source, ks):
+def path_bases(p, is_source, ks, zero_tests=True, fmt_args=True):
     """The distinct terms X on one path that (1) contain a source (is_source(subterm)) and (2) are used as `X / k`, `X % k` with k in ks,
     as `X == 0` / `X != 0` in a condition, or as a formatting argument. `X / k` and `X % k` themselves are uses, not bases."""
     from sym import walk_terms, const_of
@@ -696,7 +696,11 @@ def path_bases(p, is_source, ks):
         return t[0] == "bin" and t[1] in ("Div", "Rem") and const_of(t[3]) in ks
 
     def strip(t):
-        # the `.0` of a checked arithmetic pair is the value itself
+        return t
+
+    def uncast(t):
+        while isinstance(t, tuple) and t and t[0] in ("cast", "as") and isinstance(t[1], tuple):
+            t = t[1]
         return t
     terms = [c[1] for c in p.conds if c[0][0] == "switch"] + list(p.calls)
     for t in terms:
@@ -706,9 +710,9 @@ def path_bases(p, is_source, ks):
             if is_use(x) and has_src(x[2]):
                 if not is_use(x[2]):
                     bases.add(strip(x[2]))
-            elif x[0] == "bin" and x[1] in ("Eq", "Ne") and const_of(x[3]) == 0 and has_src(x[2]) and not is_use(x[2]):
-                bases.add(strip(x[2]))
-            elif x[0] == "call" and isinstance(x[1], str) and x[1].endswith("::new_display") and x[2]:
+            elif zero_tests and x[0] == "bin" and x[1] in ("Eq", "Ne") and const_of(x[3]) == 0 and has_src(x[2]) and not is_use(uncast(x[2])):
+                bases.add(strip(uncast(x[2])))
+            elif fmt_args and x[0] == "call" and isinstance(x[1], str) and x[1].endswith("::new_display") and x[2]:
                 a = x[2][0]
                 while isinstance(a, tuple) and a and a[0] in ("ref", "deref"):
                     a = a[1]
